@@ -147,7 +147,7 @@ fn keyword_world(pos: &str, export: bool, names: &[&str]) -> String {
     match pos {
         "record-name" => {
             for (i, n) in names.iter().enumerate() {
-                body += &format!("  record %{n} {{ x: u32, y: string }}\n  f{i}: func(a: %{n}) -> %{n};\n");
+                body += &format!("  record %{n} {{ x: u32, y: string }}\n  fun{i}: func(a: %{n}) -> %{n};\n");
             }
         }
         "record-field" => {
@@ -159,7 +159,7 @@ fn keyword_world(pos: &str, export: bool, names: &[&str]) -> String {
         }
         "variant-name" => {
             for (i, n) in names.iter().enumerate() {
-                body += &format!("  variant %{n} {{ ca(u32), cb(string), cc }}\n  f{i}: func(a: %{n}) -> %{n};\n");
+                body += &format!("  variant %{n} {{ ca(u32), cb(string), cc }}\n  fun{i}: func(a: %{n}) -> %{n};\n");
             }
         }
         "variant-case" => {
@@ -175,7 +175,7 @@ fn keyword_world(pos: &str, export: bool, names: &[&str]) -> String {
         }
         "enum-name" => {
             for (i, n) in names.iter().enumerate() {
-                body += &format!("  enum %{n} {{ ea, eb }}\n  f{i}: func(a: %{n}) -> %{n};\n");
+                body += &format!("  enum %{n} {{ ea, eb }}\n  fun{i}: func(a: %{n}) -> %{n};\n");
             }
         }
         "enum-case" => {
@@ -187,7 +187,7 @@ fn keyword_world(pos: &str, export: bool, names: &[&str]) -> String {
         }
         "flags-name" => {
             for (i, n) in names.iter().enumerate() {
-                body += &format!("  flags %{n} {{ fa, fb }}\n  f{i}: func(a: %{n}) -> %{n};\n");
+                body += &format!("  flags %{n} {{ fa, fb }}\n  fun{i}: func(a: %{n}) -> %{n};\n");
             }
         }
         "flag" => {
@@ -205,7 +205,7 @@ fn keyword_world(pos: &str, export: bool, names: &[&str]) -> String {
                 } else {
                     body += &format!("  type %{n} = list<u32>;\n");
                 }
-                body += &format!("  f{i}: func(a: %{n}) -> %{n};\n");
+                body += &format!("  fun{i}: func(a: %{n}) -> %{n};\n");
             }
         }
         "func-name" => {
@@ -231,13 +231,13 @@ fn keyword_world(pos: &str, export: bool, names: &[&str]) -> String {
                     })
                     .collect::<Vec<_>>()
                     .join(", ");
-                body += &format!("  f{k}: func({ps}) -> u32;\n");
+                body += &format!("  fun{k}: func({ps}) -> u32;\n");
             }
         }
         "resource-name" => {
             for (i, n) in names.iter().enumerate() {
                 body += &format!(
-                    "  resource %{n} {{ constructor(a: u32); get: func() -> u32; make: static func() -> %{n}; }}\n  f{i}: func(a: borrow<%{n}>) -> %{n};\n"
+                    "  resource %{n} {{ constructor(a: u32); get: func() -> u32; make: static func() -> %{n}; }}\n  fun{i}: func(a: borrow<%{n}>) -> %{n};\n"
                 );
             }
         }
@@ -915,6 +915,19 @@ fn main() {
         cases.retain(|c| c.id.contains(o.as_str()));
     }
     rotate(&mut cases, run.seed);
+
+    // every enumerated world must be valid WIT (checked up front: a typo in the catalogue would make
+    // the world vacuous, and finding out after all compilations wastes the run)
+    {
+        let bad: Vec<String> = cases
+            .iter()
+            .filter(|c| matches!(c.input, Input::Texts(_)))
+            .filter_map(|c| parse(&c.input, c.world.as_deref()).err().map(|e| format!("{}: {e}", c.id)))
+            .collect();
+        if !bad.is_empty() {
+            vcommon::machinery(&format!("enumerated worlds that are not valid WIT: {bad:?}"));
+        }
+    }
 
     let n = cases.len();
     let workers = vcommon::ncpu().min(16);
